@@ -125,6 +125,8 @@ Section SpellText.
   (* the literal on the left: `1<@.a` means `@.a>1` (the parser exchanges the operands and mirrors an ordering) *)
   Lemma literal_left_spellings i o lit : same_step (FQ [[BC i o lit]]) (FQ [[BCL lit (mirror_op o) i]]).
   Proof. intros root lv. cbn [FiltChainAddr.nav1f]. apply navp_ext. intros v. unfold QueryAddr.dnf_test. cbn [existsb forallb QueryAddr.bq_test]. destruct o; reflexivity. Qed.
+  Lemma typed_literal_left_spellings i ne l : same_step (FQ [[BL i ne l]]) (FQ [[BLL l ne i]]).
+  Proof. intros root lv. reflexivity. Qed.
   (* parentheses around a sub-query change nothing *)
   Lemma parenthesised_query_spellings t : same_step (FT t) (FT (TP t)).
   Proof. intros root lv. reflexivity. Qed.
